@@ -230,7 +230,7 @@ def c10(tier):
                 continue
             nbad += 1
             verdict.violation("sizeof(%s) as %s: %s" % (z["what"], pos, problem), dict(property=pid, expression="sizeof(%s)" % z["what"], position=pos, c_value=want, problem=problem, source=src))
-    if exact < 200 or sz_ok < 5 or stmt_exact < 50:
+    if (exact < 200 or sz_ok < 5 or stmt_exact < 50) and not verdict.violations:      # (a run that found violations reports them)
         raise common.ToolError("vacuous: %d exact evaluations, %d sizeof" % (exact, sz_ok))
     cov = dict(states=res.distinct, transitions=res.generated, traces_validated_against_impl=len(cases),
                samples=[dict(expression=c["_expr"], position=c["pos"], value=c["v"]) for c in cases[300:304]],
@@ -385,7 +385,7 @@ def c12(tier):
                 if t:
                     jsr[f["name"]] = t
         tc.append(dict(id=i, src={k: v for k, v in c["_calls"].items()}, roots=c["_roots"], tree=o["tree"], inuse=o["inuse"], jsr=jsr))
-    if accepted < 100:
+    if (accepted < 100) and not verdict.violations:      # (a run that found violations reports them)
         raise common.ToolError("vacuous: %d accepted (%s)" % (accepted, reasons))
     d2 = common.workdir("cg_c12")
     p = os.path.join(d2, "cases.ndjson")
